@@ -264,6 +264,16 @@ def main():
             open(dest, "wb").write(b"previous complete destination content " * 50)
         elif spec["dest"] == "existing-empty":
             open(dest, "wb").close()      # an existing file of length 0 is an existing file
+        # how the caller spells the destination: the same file through a relative path, or a "~" path whose
+        # expansion ($HOME) is the directory holding the existing file
+        dest_arg = dest
+        if spec.get("spell") == "relative":
+            os.chdir(work)
+            dest_arg = os.path.join("out", "new.scx")
+        elif spec.get("spell") == "tilde":
+            os.chdir(work)
+            os.environ["HOME"] = os.path.join(work, "out")
+            dest_arg = "~/new.scx"
         before = {"base": sha(base), "dest": sha(dest), "neighbour": sha(neighbour)}
         kw = {}
         op = spec["op"]
@@ -313,23 +323,23 @@ def main():
         exc = None
         try:
             if op == "save":
-                io.save_chk_to_mpq(rich, base, dest, **kw)
+                io.save_chk_to_mpq(rich, base, dest_arg, **kw)
             elif op == "import":
-                StarCraftAudioFilesIo(wrapper).add_audio_files_to_mpq(spec["audio"], base, dest, **kw)
+                StarCraftAudioFilesIo(wrapper).add_audio_files_to_mpq(spec["audio"], base, dest_arg, **kw)
             elif op == "read":
                 io.read_chk_from_mpq(base)
             elif op == "extract_chk":
-                io.extract_chk_from_mpq(base, dest, **kw)
+                io.extract_chk_from_mpq(base, dest_arg, **kw)
             elif op == "extract_file":
                 h = wrapper.open_archive(base, StormLibArchiveMode.STORMLIB_READ_ONLY)
                 try:
-                    wrapper.extract_file(h, "staredit\\scenario.chk", dest, **kw)
+                    wrapper.extract_file(h, "staredit\\scenario.chk", dest_arg, **kw)
                 finally:
                     wrapper.close_archive(h)
             elif op == "export":
                 from richchk.io.richchk.richchk_io import RichChkIo
 
-                ChkIo().encode_chk_to_file(RichChkIo().encode_chk(rich), dest, **kw)
+                ChkIo().encode_chk_to_file(RichChkIo().encode_chk(rich), dest_arg, **kw)
             elif op == "scenario_stale_duration":
                 res["scenario"] = scenario_stale_duration(wrapper, base, work)
             elif op == "scenario_explicit_duration":
